@@ -177,6 +177,12 @@ def r3_3(ctx):
     ys = [y for y in walk_local(rc.node) if isinstance(y, ast.Yield)]
     styled = [y for y in ys if isinstance(y.value, ast.Call) and len(y.value.args) >= 2 and not (isinstance(y.value.args[1], ast.Constant) and y.value.args[1].value is None)]
     loop_targets = {t.id for x in walk_local(rc.node) if isinstance(x, ast.For) for t in ast.walk(x.target) if isinstance(t, ast.Name)}
+    # names unpacked from the loop variable inside the loop body (text, style, is_control = segment) range over the same segments
+    for x in walk_local(rc.node):
+        if isinstance(x, ast.Assign) and isinstance(x.targets[0], ast.Tuple) and isinstance(x.value, ast.Name) and x.value.id in loop_targets:
+            loop_targets |= {t.id for t in x.targets[0].elts if isinstance(t, ast.Name)}
+    from ..astutil import alias_map as _am33, expand_alias as _ea33
+    _al33 = _am33(rc.node)
     ok = len(styled) == 1
     if ok:
         a1 = styled[0].value.args[1]
@@ -214,6 +220,8 @@ def r3_3(ctx):
                 visiting.discard(e.id)
                 return r
             lookup = None
+            if isinstance(e, ast.Call) and isinstance(e.func, ast.Name) and e.func.id in _al33:
+                e = ast.Call(func=_ea33(e.func, _al33), args=e.args, keywords=e.keywords)
             if isinstance(e, ast.Call) and isinstance(e.func, ast.Attribute) and e.func.attr == "get" and isinstance(e.func.value, ast.Name) and len(e.args) == 1 and isinstance(e.args[0], ast.Name) and e.args[0].id in loop_targets:
                 lookup = (e.func.value.id, e.args[0].id)
             if isinstance(e, ast.Subscript) and isinstance(e.value, ast.Name) and isinstance(e.slice, ast.Name) and e.slice.id in loop_targets:
